@@ -486,6 +486,34 @@ func runC02(r *core.Run) {
 			continue
 		}
 		// ---------- TDX ----------
+		if r.Chance(12, "snp-report-against-tdx-only-endorsement?") {
+			// the same firmware endorsed for TDX alone (no sev_snp section), validly signed, and an
+			// SEV-SNP report checked against it: it lists no SEV-SNP measurement, so nothing is accepted
+			tg := proto.Clone(g).(*epb.VMGoldenMeasurement)
+			tg.SevSnp = nil
+			tdxOnly := Reassemble(tg, nil, a.Current().Key, 0)
+			tle := &epb.VMLaunchEndorsement{}
+			proto.Unmarshal(tdxOnly, tle)
+			rm := full.Golden.SevSnp.Measurements[[]uint32{1, 2, 4}[r.Intn(3, "snp-report-count")]]
+			named := []uint32{0, 1, 4}[r.Intn(3, "snp-named")]
+			var serr error
+			sname := ""
+			switch r.Intn(3, "snp-vs-tdx-only-entry") {
+			case 0:
+				sname = "closure(tdx-only endorsement)"
+				serr = verify.SNPValidateFunc(&verify.Options{SNP: &verify.SNPOptions{ExpectedLaunchVMSAs: named}, RootsOfTrust: roots, Now: now})(SnpAttestation(rm, nil), tdxOnly)
+			case 1:
+				sname = "closure/options(tdx-only endorsement)"
+				serr = verify.SNPValidateFunc(&verify.Options{SNP: &verify.SNPOptions{ExpectedLaunchVMSAs: named}, RootsOfTrust: roots, Now: now, Endorsement: tle})(SnpAttestation(rm, nil), nil)
+			default:
+				sname = "verify.EndorsementProto(tdx-only endorsement)"
+				serr = verify.EndorsementProto(tle, &verify.Options{SNP: &verify.SNPOptions{Measurement: rm, ExpectedLaunchVMSAs: named}, RootsOfTrust: roots, Now: now})
+			}
+			r.Eval(fmt.Sprintf("%s|named=%d|%v", sname, named, serr == nil), true)
+			if serr == nil {
+				r.Fail("accept-unendorsed", sname, "%s accepted an SEV-SNP report (named count %d) against an endorsement that has no sev_snp section", sname, named)
+			}
+		}
 		ram := 0
 		cfgClass := "none"
 		switch r.Intn(3, "named-ram") {
